@@ -66,6 +66,11 @@ def _check_reports(bt, b, spec):
         except Exception as e:
             raise Violation("%s raised %s: %s (securities in tree: %d)" % (what, type(e).__name__, str(e)[:120], len(secs)), signature="c18:raises:" + what)
 
+    # reports may be asked for in any order, any number of times: none may depend on which was computed first
+    order = spec.get("report_order") or []
+    first = {}
+    for nm in order:
+        first[nm] = report(lambda nm=nm: getattr(b, nm), nm)
     # component weights
     w = report(lambda: b.weights, "weights")
     for m in s.members:
@@ -144,7 +149,14 @@ def _check_reports(bt, b, spec):
         if not np.allclose(cum[nm], v, rtol=0, atol=1e-6 * max(1.0, np.abs(v).max())):
             i = int(np.argmax(np.abs(cum[nm] - v) > 1e-6 * max(1.0, np.abs(v).max())))
             raise Violation("transactions of %s cumulate to %r on row %d but the position is %r" % (nm, cum[nm][i], i, v[i]), signature="c18:tx-cumulate")
+    for nm, v0 in first.items():
+        v1 = report(lambda nm=nm: getattr(b, nm), nm)
+        same = v0.equals(v1) if hasattr(v0, "equals") else v0 == v1
+        if not same:
+            raise Violation("%s read before the other reports differs from the same report read afterwards" % nm, signature="c18:report-order:" + nm)
     labs = gen.spec_labels(spec)
+    if order:
+        labs.append("first_report=" + order[0])
     if any(sum(1 for x in secs if x.name == nm) > 1 for nm in ap):
         labs.append("shared_ticker")
     if any(m.multiplier != 1 for m in secs):
@@ -168,6 +180,7 @@ def _reader_cb(algo, target):
 @st.composite
 def report_spec(draw):
     spec = draw(_report_spec())
+    spec["report_order"] = draw(st.lists(st.sampled_from(["security_weights", "herfindahl_index", "positions", "turnover", "weights"]), min_size=0, max_size=3, unique=True))
     if draw(st.booleans()):
         nodes = list(gen.walk_nodes(spec["tree"]))
         _, nd = nodes[draw(st.integers(0, len(nodes) - 1))]
